@@ -31,6 +31,10 @@ const STEP_TICK_BUDGET: u64 = 1 << 16;
 pub enum WorldKind {
     U,
     N,
+    /// symbols are a user type whose clone / cmp can be made to panic at a scripted call
+    /// (`symbol-op-panic`: an unwinding in the middle of a library operation that the caller
+    /// catches, reachable through the public generic `BDDEnv<S: BDDSymbol>` seam)
+    F,
 }
 
 #[derive(Clone, Copy, Debug, PartialEq, Eq, Serialize, Deserialize)]
@@ -250,6 +254,9 @@ impl Op {
 
 #[derive(Clone, Debug, PartialEq, Eq, Serialize, Deserialize)]
 pub struct Step {
+    /// `symbol-op-panic` (world F): the k-th clone / comparison of a symbol during this step panics
+    #[serde(default)]
+    pub sym_fault: Option<u32>,
     /// `cross-env` (C02 only): bit i set = operand i is replaced by a structurally identical twin
     /// that lives in a second environment (bit 7 clear) or in no environment at all (bit 7 set)
     #[serde(default)]
@@ -336,13 +343,11 @@ struct FaultCfg {
 pub fn gen_plan(rng: &mut Prng, property: &str, tier: &Tier) -> EnvPlan {
     let world = match property {
         "C19" => WorldKind::U,
-        _ => {
-            if rng.chance(2, 5) {
-                WorldKind::N
-            } else {
-                WorldKind::U
-            }
-        }
+        _ => match rng.below(10) {
+            0..=3 => WorldKind::N,
+            4 | 5 => WorldKind::F,
+            _ => WorldKind::U,
+        },
     };
     // C13 only: one run in eight uses 7-10 variables ("big" runs: diagrams with hundreds of nodes;
     // functions are then tracked by structural hash instead of a 64-bit truth table)
@@ -397,6 +402,7 @@ pub fn gen_plan(rng: &mut Prng, property: &str, tier: &Tier) -> EnvPlan {
     // every run starts by building a few variables so that operands are not all constants
     for i in 0..nvars.min(3) {
         steps.push(Step {
+            sym_fault: None,
             foreign: 0,
             client: 0,
             keep: true,
@@ -458,6 +464,7 @@ pub fn gen_plan(rng: &mut Prng, property: &str, tier: &Tier) -> EnvPlan {
                     _ => Op::Redo(sel(rng)),
                 };
                 steps.push(Step {
+                    sym_fault: None,
                     foreign: 0,
                     client,
                     keep: true,
@@ -561,7 +568,40 @@ pub fn gen_plan(rng: &mut Prng, property: &str, tier: &Tier) -> EnvPlan {
         } else {
             0
         };
-        steps.push(Step { foreign, client, keep, op });
+        let sym_fault = if world == WorldKind::F && op.is_raw() && rng.chance(faults.rate.max(10), 100) {
+            Some(*rng.pick(&[0u32, 1, 2, 3, 5, 8, 13, 21, 40, 80]))
+        } else {
+            None
+        };
+        let retry = if sym_fault.is_some() && rng.coin() {
+            // what a caller does after a failed call: it tries again (for quantifiers: with
+            // another variable as well)
+            let mut again = op.clone();
+            match &mut again {
+                Op::Exists(vs, _) | Op::All(vs, _) => {
+                    for v in vs.iter_mut() {
+                        if rng.coin() {
+                            *v = (*v + 1) % (nvars + 1);
+                        }
+                    }
+                }
+                Op::ExistsImpl(v, _) => *v = (*v + 1 + rng.below(2)) % (nvars + 1),
+                _ => {}
+            }
+            Some(again)
+        } else {
+            None
+        };
+        steps.push(Step { sym_fault, foreign, client, keep, op });
+        if let Some(again) = retry {
+            steps.push(Step {
+                sym_fault: None,
+                foreign: 0,
+                client,
+                keep: true,
+                op: again,
+            });
+        }
     }
 
     let ids: Vec<usize> = if property != "C19" && !set_heavy && rng.chance(1, 3) {
@@ -1026,6 +1066,73 @@ impl World for NWorld {
     }
 }
 
+thread_local! {
+    static SYM_FAULT: Cell<Option<u32>> = const { Cell::new(None) };
+}
+
+fn sym_tick() {
+    SYM_FAULT.with(|c| {
+        if let Some(k) = c.get() {
+            if k == 0 {
+                c.set(None);
+                std::panic::panic_any(ScriptCancel);
+            }
+            c.set(Some(k - 1));
+        }
+    });
+}
+
+/// A user symbol type whose clone and comparison count down an armed fault.
+/// Equality and hashing never fault (they run inside the hash map's own critical sections).
+#[derive(Debug, PartialEq, Eq, Hash)]
+pub struct FaultySym(pub usize);
+
+impl Clone for FaultySym {
+    fn clone(&self) -> Self {
+        sym_tick();
+        FaultySym(self.0)
+    }
+}
+
+impl Ord for FaultySym {
+    fn cmp(&self, other: &Self) -> std::cmp::Ordering {
+        sym_tick();
+        self.0.cmp(&other.0)
+    }
+}
+
+impl PartialOrd for FaultySym {
+    fn partial_cmp(&self, other: &Self) -> Option<std::cmp::Ordering> {
+        Some(self.cmp(other))
+    }
+}
+
+impl std::fmt::Display for FaultySym {
+    fn fmt(&self, f: &mut std::fmt::Formatter<'_>) -> std::fmt::Result {
+        write!(f, "s{}", self.0)
+    }
+}
+
+pub struct FWorld;
+
+impl World for FWorld {
+    type S = FaultySym;
+    type Ext = ();
+    fn sym(syms: &Syms, i: usize) -> FaultySym {
+        FaultySym(syms.id(i))
+    }
+    fn idx(s: &FaultySym) -> usize {
+        s.0
+    }
+    fn new_ext() -> Self::Ext {}
+    fn extra_roots(_: &Exec<Self>) -> Vec<Rc<BDD<FaultySym>>> {
+        Vec::new()
+    }
+    fn world_step(_: &mut Exec<Self>, _: usize, _: &Step) -> Result<bool, Violation> {
+        Ok(true)
+    }
+}
+
 fn viol(property: &str, oracle: &str, site: &str, step: usize, detail: String) -> Violation {
     Violation {
         property: property.to_string(),
@@ -1376,8 +1483,14 @@ impl<'p, W: World> Exec<'p, W> {
         rsbdd::verif_hooks::reset();
         rsbdd::verif_hooks::set_budget(Some(STEP_TICK_BUDGET));
         let env = Rc::clone(&self.env);
+        SYM_FAULT.with(|c| c.set(step.sym_fault));
         let shared = catch(|| apply(&env, &symf, nvars, op, &args));
+        let sym_cancelled = step.sym_fault.is_some() && SYM_FAULT.with(|c| c.get()).is_none() && matches!(shared, Caught::Cancel);
+        SYM_FAULT.with(|c| c.set(None));
         rsbdd::verif_hooks::set_budget(None);
+        if sym_cancelled {
+            bump(&mut self.stats, "fault.symbol-op-panic");
+        }
 
         if matches!(shared, Caught::Budget) {
             self.budget_hit = true;
@@ -1439,6 +1552,8 @@ impl<'p, W: World> Exec<'p, W> {
                     }
                 }
                 (Caught::Cancel, Caught::Cancel) => {}
+                // the shared-environment run was cut short by an injected symbol fault: no result to compare
+                (Caught::Cancel, _) if sym_cancelled => {}
                 (Caught::Panic(m1, l1), Caught::Panic(m2, l2)) => {
                     bump(&mut self.stats, "probe.op_panics_in_both_envs");
                     if l1 != l2 || panic_kind(m1) != panic_kind(m2) {
@@ -2237,6 +2352,7 @@ pub fn execute(plan: &EnvPlan) -> RunOutcome {
     match plan.world {
         WorldKind::U => Exec::<UWorld>::new(plan).run(),
         WorldKind::N => Exec::<NWorld>::new(plan).run(),
+        WorldKind::F => Exec::<FWorld>::new(plan).run(),
     }
 }
 
